@@ -2,6 +2,7 @@
    Only property theorems, each closed by `exact <lemma>` and followed by Print Assumptions. *)
 From SV Require Import Model.PeakHelpers Spec.PeakHelpersSpec Proof.PeakHelpersProof.
 From SV Require Import Model.Peaks Spec.PeaksSpec Proof.PeaksProof Proof.PeaksTheorems Proof.PeaksExamples.
+From SV Require Import Model.Merging Spec.MergingSpec Proof.ReplaceMergedProof Proof.MergePeaksProof.
 
 (* ------------------------------------------------------------------------------------------ *)
 (* symmetric_moving_average (repaired code, `just_out >= 0`) equals the defining windowed mean:
@@ -75,3 +76,39 @@ Theorem C19_find_peaks_disjoint_ordered_refuted :
     find_peaks P gains nch hs = Ok ps /\ ~ peaks_disjoint_ordered ps.
 Proof. exact find_peaks_overlap_witness. Qed.
 Print Assumptions C19_find_peaks_disjoint_ordered_refuted.
+
+(* ------------------------------------------------------------------------------------------ *)
+(* replace_merged / _replace_merged: for skip windows that lie inside the array, do not overlap
+   and have strictly increasing ends, the loop (including the insertion after the loop and all
+   its assertions) returns  orig[0:s1] ++ [m1] ++ orig[e1:s2] ++ [m2] ++ ... ++ orig[ek:] :
+   every merged peak once, exactly the originals outside all windows, untouched and in order. *)
+Theorem C19_replace_merged_keeps_rest : forall (T : Type) (orig : list T) mw,
+  wchain (zlen orig) 0 mw -> replace_merged orig mw = Ok (rm_spec orig 0 mw).
+Proof. exact @replace_merged_spec. Qed.
+Print Assumptions C19_replace_merged_keeps_rest.
+
+(* _merge_peaks: each merged peak adds areas, hit counts and per-channel areas, starts at the
+   first start, reports the last end, never extends beyond it (and ends less than two of its
+   samples before it), and its dt is a multiple of the gcd of the constituents' dt. *)
+Theorem C19_merge_adds_and_spans : forall ns nch old p E,
+  merge_group ns nch old = Ok (p, E) ->
+  exists first, hd_error old = Some first /\
+  E = mend (last old first) /\ mt p = mt first /\
+  marea p = zsum (map marea old) /\ mnhits p = zsum (map mnhits old) /\
+  mapc p = fold_left zaddl (map mapc old) (repeat 0 nch) /\
+  (Forall (fun q => length (mapc q) = nch) old ->
+   forall c, nth c (mapc p) 0 = zsum (map (fun q => nth c (mapc q) 0) old)) /\
+  (0 < ns -> Forall (fun q => 0 < mdt q) old -> mt first <= mend (last old first) ->
+   let cdt := gcdl (mdt first) (map mdt old) in
+   0 < cdt /\ (forall q, In q old -> (cdt | mdt q)) /\ (cdt | mdt p) /\
+   0 <= mlen p /\ mt p + mlen p * mdt p <= E /\ E < mt p + mlen p * mdt p + 2 * mdt p).
+Proof. exact merge_group_spec. Qed.
+Print Assumptions C19_merge_adds_and_spans.
+
+Theorem C19_merge_peaks_one_group_per_range : forall ns nch ps se gs,
+  merge_peaks ns nch ps se = Ok gs ->
+  2 <= zlen ps /\ disjointb ps = true /\
+  Forall2 (fun r g => merge_group ns nch (firstn (Z.to_nat (snd r - fst r)) (skipn (Z.to_nat (fst r)) ps)) = Ok g)
+          se gs.
+Proof. exact merge_peaks_groups. Qed.
+Print Assumptions C19_merge_peaks_one_group_per_range.
